@@ -175,6 +175,8 @@ def _listrec(ctx, p, rng):
         cg.independentFunctionList = [x]; cg.dependentFunctionList = [y]
     except Exception:
         ctx.skip('not-traceable:listrec'); return
+    if not isinstance(y, algopy.Function):
+        ctx.skip('degenerate-program (the generated polynomial is identically zero)'); return
     x1 = np.round(rng.normal(size=N), 3); xq = [Fraction(float(v)) for v in x1]
     g = np.array([_fl(poly.diff(i)(xq)) for i in range(N)]); ga = np.array([_fl(poly.diff(i).absval(xq)) for i in range(N)]) + 1e-12
     H = np.array([[_fl(poly.diff(i).diff(j)(xq)) for j in range(N)] for i in range(N)]); Ha = np.max(np.abs(H)) + np.max(ga)
